@@ -444,10 +444,18 @@ StepEvent(e) ==
         /\ nev' = nev + 1
         /\ nchk' = nchk + Cardinality(cs)
 
+\* an event validated earlier in the same file (the shared prelude of a concurrent scenario, repeated in front of every
+\* goroutine's program for the continuity of its registers): only the logged post-state is taken over
+StepAdopt(e) == /\ regs' = [n \in Names |-> IF n \in DOMAIN e.post THEN e.post[n] ELSE regs[n]]
+                /\ dirty' = (dirty \ DOMAIN e.post) \cup {e.delta[i] : i \in 1..Len(e.delta)}
+                /\ fails' = {}
+                /\ UNCHANGED <<memo, nev, nchk>>
+
 Next == /\ l <= Len(TheTrace)
         /\ l' = l + 1
         /\ LET e == TheTrace[l] IN
-             IF e.op = "Reset" THEN StepReset ELSE StepEvent(e)
+             IF e.op = "Reset" THEN StepReset
+             ELSE IF "adopt" \in DOMAIN e THEN StepAdopt(e) ELSE StepEvent(e)
 
 Spec == Init /\ [][Next]_vars
 
